@@ -117,6 +117,9 @@ type srcInfo struct {
 	trunc        func(p int) []int
 	setFatal     func(p int, E error)
 	setTransient func(call int)
+	// misuse describes how the library used this source against the Stream contract so far (Next
+	// after Close, a second Close, Next and Close overlapping), or "".
+	misuse func() string
 }
 
 // env is the shared state of one scenario: fault plan, what fired, and (concurrent part) the
@@ -126,6 +129,9 @@ type env struct {
 	pert *vkit.Perturber // nil in the sequential part
 
 	srcs []*srcInfo
+
+	// gate (goroutine-backed part): when set, every source's Close blocks until it is closed.
+	gate chan struct{}
 
 	cbStage  int // stage whose callback fails (-1: none)
 	cbOrigin int
@@ -217,7 +223,13 @@ func (w *wsrc[T]) Next(ctx context.Context) (T, error) {
 	return x, err
 }
 
-func (w *wsrc[T]) Close() { w.p.Close() }
+func (w *wsrc[T]) Close() {
+	w.p.Close()
+	if g := w.e.gate; g != nil {
+		w.e.ev('s'+w.id, 'C')
+		<-g // the harness opens the gate only after the verdict
+	}
+}
 
 // newSrc makes a probe source that honours ctx before consuming, and registers it.
 func newSrc[T any](e *env, name string, items []T, counts bool, trunc func(p int) []int) *wsrc[T] {
@@ -243,6 +255,7 @@ func newSrc[T any](e *env, name string, items []T, counts bool, trunc func(p int
 			p.FatalAt = at
 			p.Fatal = E
 		},
+		misuse: func() string { return p.Misuse(false) },
 		setTransient: func(call int) {
 			if p.TransientAt == nil {
 				p.TransientAt = make(map[int]bool)
